@@ -142,7 +142,7 @@ class Gen:
         elif k == "writefile":
             p = self.some("f") if r.random() < 0.7 else self.new_name()
             fl = r.choice([O_WRONLY | O_CREATE | O_TRUNC, O_RDWR | O_CREATE, O_WRONLY | O_APPEND, O_RDWR, O_WRONLY | O_CREATE | O_EXCL,
-                           O_RDWR | O_TRUNC, O_WRONLY, O_RDONLY, O_WRONLY | O_CREATE | O_APPEND])
+                           O_RDWR | O_TRUNC, O_WRONLY, O_RDONLY, O_WRONLY | O_CREATE | O_APPEND, O_WRONLY | O_APPEND | O_TRUNC])
             c.update(name=p, flags=fl, perm=r.choice([0o644, 0o600]), blob=self.blob(r.choice([0, 3, 100, 600, 513, 2000])), flag=r.random() < 0.2)
             if fl & O_CREATE and os.path.dirname(p) in self.dirs and p not in self.dirs:
                 self.files.add(p)
@@ -249,7 +249,7 @@ def cq_bool(b):
 
 
 def cq_content(pieces):
-    return cq_list(["(%d, %d, %d)" % (p[0] if p[0] >= 0 else 999999, p[1], p[2]) for p in pieces])
+    return cq_list(["(%d, %d, %d)" % ((p[0], p[1], p[2]) if p[0] >= 0 else (1000000 + p[1], 0, 1)) for p in pieces])
 
 
 def blob_content(h, i):
